@@ -7,6 +7,7 @@ From Coba Require C17.Run.
 From Coba Require C09.Run.
 From Coba Require C11.Run.
 From Coba Require C18.Run.
+From Coba Require C13.Run.
 Open Scope Z_scope.
 
 Definition dispatch (op : Z) (x : sx) : sx :=
@@ -17,5 +18,6 @@ Definition dispatch (op : Z) (x : sx) : sx :=
   | 9 => C09.Run.run x
   | 11 => C11.Run.run x
   | 18 => C18.Run.run x
+  | 13 => C13.Run.run x
   | _ => err 98
   end.
